@@ -32,8 +32,8 @@ ARRAY_OPS = [("store", F), ("fetch", F), ("has", F), ("store", Z), ("fetch", Z),
 # path operations that move one path between two keys and back (A, B, A ...)
 RECONF_OPS = [("store", L), ("fetch", L), ("has", L), ("reconfigure", None), ("fetch", P), ("sync_q_to", L), ("fetch_paths", None)]
 PATH_OPS = [("sync_q_to", P), ("sync_q_to", N), ("sync_r_to", P), ("sync", None), ("fetch_paths", None)]
-EXTRA_KEYS = ["x%d" % i for i in range(12)]  # to fill / overflow the cache
-CAPS = [0, 1, 2, 3, 10, sys.maxsize // 2]  # 0: a wrapper that may hold nothing
+EXTRA_KEYS = ["x%d" % i for i in range(40)]  # to fill / overflow the cache
+CAPS = [0, 1, 2, 3, 10, 16, sys.maxsize // 2]  # 0: a wrapper that may hold nothing; 16: larger than any burst below but one
 
 
 def value_of(k):
@@ -236,7 +236,7 @@ def api_job(arg):
         dds.set_store("local", internal_dir=os.path.join(root, "i"), data_dir=os.path.join(root, "d"), cache_objects=co)
         st = _api._store()
         refs = []
-        n = 25
+        n = 45
         for i in range(n):
             kx = SM.key_for("api%d" % i)
             st.store_blob(kx, SM.Obj(i), None)
@@ -278,7 +278,7 @@ def run(tier, seed):
         for _ in range(30):
             r = rng.random()
             if r < 0.15:
-                s.append(("fill", rng.choice([1, 2, 3, 4, 11, 12])))
+                s.append(("fill", rng.choice([1, 2, 3, 4, 11, 12, 18, 40])))
             elif r < 0.35:
                 s.append(rng.choice(PATH_OPS))
             else:
@@ -315,7 +315,7 @@ def run(tier, seed):
             chunk = 250
             for i in range(0, len(allseq), chunk):
                 jobs.append(("seq", (under, cap, allseq[i : i + chunk])))
-    for co, cap in ((None, None), (False, None), (True, 10), (0, None), (-1, None), (3, 3), (1, 1)):
+    for co, cap in ((None, None), (False, None), (True, 10), (0, None), (-1, None), (3, 3), (1, 1), (16, 16), (20, 20)):
         jobs.append(("api", (co, cap)))
 
     def dispatch(j):
